@@ -8,11 +8,12 @@ from harness.framework import Suite
 PID = "C13"
 TRANSLATE = True
 TRANSLATE_ALGO = ["AlgoVolCtl"]
-LEAN_MODS = ["SwcVerif.Props.C13"]
+LEAN_MODS = ["SwcVerif.Props.C13", "SwcVerif.Refine.VolCtl"]
 THEOREMS = [
     "C13.sphere_volume", "C13.cap_volume", "C13.frustum_volume", "C13.frustum_symm",
     "C13.lens_disjoint", "C13.lens_nested", "C13.lens_proper", "C13.lens_volume", "C13.lens_symm",
     "C13.concentric_wide", "C13.concentric_narrow", "C13.concentric_volume", "C13.exitT_on_sphere", "C13.exitT_eq_model", "C13.union_volume",
+    "RefineVolCtl.sphere_volume_gen", "RefineVolCtl.generated_sphere2_cases", "RefineVolCtl.generated_sphere2_true_volume",
 ]
 TRUSTED = ["translator harness/translate.py (Gen/VolumeFormulas.lean regenerated from utils/volumetric_object.py on every run; Float cross-check)",
            "disc method: volume of a solid of revolution := π∫ρ² (its equality with Lebesgue volume is assumed, not proved)"]
